@@ -66,6 +66,7 @@ pub fn profile() -> Profile {
     p.p_odd_spelling = 90;
     p.kind_w = [30, 10, 18, 14, 12, 6, 8, 0, 3];
     p.grandfathered_faucet = true;
+    p.p_teleport = 1;
     p
 }
 
